@@ -35,7 +35,7 @@ func init() { commands["c09"] = runC09 }
 // ---- corruptions ------------------------------------------------------------------------------
 
 type corruption struct {
-	Op    string // UD UP SDI SDK SAI SAK SJ ED EA FS FN
+	Op    string // UD UP SDI SDK SAI SAK SJ ED EA FS FN  +  whole-bucket ops: EDB EEB SEK XDB XEB
 	Class string // corruption class, for the statistics only
 	Root  string
 	Name  string // index symbol / set name / field name
@@ -46,14 +46,16 @@ type corruption struct {
 
 func (c corruption) text() string {
 	switch c.Op {
-	case "UD", "SDK", "SAK", "SJ":
+	case "UD", "SDK", "SAK", "SJ", "SEK":
 		return fmt.Sprintf("%s %s %s %s", c.Op, c.Root, c.Name, hxs(c.Val))
 	case "UP", "SDI", "SAI":
 		return fmt.Sprintf("%s %s %s %s %s", c.Op, c.Root, c.Name, hxs(c.Val), hxs(c.Tgt))
 	case "ED", "EA", "FS":
 		return fmt.Sprintf("%s %s %s %s %s", c.Op, c.Root, hxs(c.Id), c.Name, hxs(c.Val))
-	case "FN":
+	case "FN", "EDB", "EEB":
 		return fmt.Sprintf("%s %s %s %s", c.Op, c.Root, hxs(c.Id), c.Name)
+	case "XDB", "XEB":
+		return fmt.Sprintf("%s %s %s", c.Op, c.Root, c.Name)
 	}
 	return "?"
 }
@@ -67,13 +69,15 @@ func parseCorruptions(toks []string) ([]corruption, error) {
 	for ; n > 0; n-- {
 		c := corruption{Op: next()}
 		switch c.Op {
-		case "UD", "SDK", "SAK", "SJ":
+		case "UD", "SDK", "SAK", "SJ", "SEK":
 			c.Root, c.Name, c.Val = next(), next(), string(unhx(next()))
+		case "XDB", "XEB":
+			c.Root, c.Name = next(), next()
 		case "UP", "SDI", "SAI":
 			c.Root, c.Name, c.Val, c.Tgt = next(), next(), string(unhx(next())), string(unhx(next()))
 		case "ED", "EA", "FS":
 			c.Root, c.Id, c.Name, c.Val = next(), string(unhx(next())), next(), string(unhx(next()))
-		case "FN":
+		case "FN", "EDB", "EEB":
 			c.Root, c.Id, c.Name = next(), string(unhx(next())), next()
 		default:
 			return nil, fmt.Errorf("bad corruption %q", c.Op)
@@ -197,8 +201,61 @@ func applyCorruption(tx *bbolt.Tx, c corruption) error {
 			return nil
 		}
 		return eb.Put([]byte(c.Name), []byte{byte(boltz.TypeNil)})
+	// ---- whole-bucket corruptions: the bucket is ABSENT (..DB) or PRESENT BUT EMPTY (..EB / SEK); the model
+	// state does not distinguish the two (Integrity.v XSetClear / XSClearKey / XSClearIdx / XUClearIdx)
+	case "EDB": // the whole string-set bucket (back-references / links / set field) of an entity is gone
+		eb := entBucket()
+		if eb == nil {
+			return nil
+		}
+		return c09DropBucket(eb, c.Name, false)
+	case "EEB": // ... exists but holds nothing (created if it did not exist)
+		eb := entBucket()
+		if eb == nil {
+			return nil
+		}
+		return c09DropBucket(eb, c.Name, true)
+	case "SEK": // set index: an existing key bucket emptied, the bucket stays
+		b, err := idxBucket()
+		if err != nil {
+			return err
+		}
+		if b.Bucket([]byte(c.Val)) != nil {
+			return c09DropBucket(b, c.Val, true)
+		}
+		return nil
+	case "XDB", "XEB": // the whole index bucket of a symbol (unique or set index) gone / emptied
+		b, err := top.CreateBucketIfNotExists([]byte(boltz.IndexesBucket))
+		if err != nil {
+			return err
+		}
+		if b, err = b.CreateBucketIfNotExists([]byte(c.Root)); err != nil {
+			return err
+		}
+		name := c.Name
+		if sym, ok := lastKeyToSym[c.Root+"."+c.Name]; ok {
+			name = sym
+		}
+		return c09DropBucket(b, name, c.Op == "XEB")
 	}
 	return fmt.Errorf("unknown corruption %q", c.Op)
+}
+
+// c09DropBucket removes the nested bucket [name] of [parent] with everything below it; with [recreate] an empty
+// bucket of that name exists afterwards (also when there was none before)
+func c09DropBucket(parent *bbolt.Bucket, name string, recreate bool) error {
+	if parent.Bucket([]byte(name)) != nil {
+		if err := parent.DeleteBucket([]byte(name)); err != nil {
+			return err
+		}
+	} else if parent.Get([]byte(name)) != nil {
+		return nil // a plain key of that name: not ours
+	}
+	if recreate {
+		_, err := parent.CreateBucket([]byte(name))
+		return err
+	}
+	return nil
 }
 
 // ---- candidates -------------------------------------------------------------------------------
@@ -310,6 +367,9 @@ func candidates(w *wiring, facts []string, r *rng, universe []string) []corrupti
 					add(corruption{Op: "UP", Class: "unique-extra", Root: root, Name: c.Field, Val: "zzu" + fmt.Sprint(r.intn(3)), Tgt: j})
 				}
 				add(corruption{Op: "UP", Class: "unique-extra", Root: root, Name: c.Field, Val: "zzv", Tgt: ghost(root)})
+				// the whole index bucket of the symbol: absent / present but empty
+				add(corruption{Op: "XDB", Class: "unique-index-bucket-deleted", Root: root, Name: c.Field})
+				add(corruption{Op: "XEB", Class: "unique-index-bucket-emptied", Root: root, Name: c.Field})
 				// genuine conflicts: a duplicate value / a nil in the field (root fields only)
 				if s.Parent == "" {
 					ids := v.ents[root]
@@ -344,6 +404,25 @@ func candidates(w *wiring, facts []string, r *rng, universe []string) []corrupti
 				}
 				add(corruption{Op: "SAK", Class: "set-empty-key", Root: root, Name: c.Field, Val: "zzk" + fmt.Sprint(r.intn(2))})
 				add(corruption{Op: "SJ", Class: "set-junk-key", Root: root, Name: c.Field, Val: "zzj"})
+				// whole buckets: an existing key bucket emptied; the index bucket of the symbol absent / emptied;
+				// the set-field bucket of an entity absent / emptied (every index entry of the entity is stale)
+				if k, ok := pick(ks); ok {
+					add(corruption{Op: "SEK", Class: "set-key-emptied", Root: root, Name: c.Field, Val: k})
+				}
+				add(corruption{Op: "XDB", Class: "set-index-bucket-deleted", Root: root, Name: c.Field})
+				add(corruption{Op: "XEB", Class: "set-index-bucket-emptied", Root: root, Name: c.Field})
+				if s.Parent == "" {
+					var holders []string
+					for _, i := range v.ents[root] {
+						if len(v.sets[root+"/"+i+"/"+c.Field]) > 0 {
+							holders = append(holders, i)
+						}
+					}
+					if i, ok := pick(holders); ok {
+						add(corruption{Op: "EDB", Class: "set-field-bucket-deleted", Root: root, Id: i, Name: c.Field})
+						add(corruption{Op: "EEB", Class: "set-field-bucket-emptied", Root: root, Id: i, Name: c.Field})
+					}
+				}
 			case "FI", "FC":
 				troot := w.rootOf(c.Target)
 				for _, i := range v.ents[root] {
@@ -359,6 +438,50 @@ func candidates(w *wiring, facts []string, r *rng, universe []string) []corrupti
 						}
 					}
 				}
+				// the fk field re-pointed below the API to ANOTHER EXISTING target: preferably one that never had a
+				// referrer, whose back-reference bucket therefore does not exist (it is created lazily by the first
+				// referrer): the old target keeps a wrong back-reference, the new one misses its only one
+				for _, i := range v.ents[root] {
+					val := v.fields[root+"/"+i+"/"+c.Field]
+					cur := ""
+					if strings.HasPrefix(val, "s") && val != "s-" {
+						cur = unhxs(val[1:])
+					}
+					var noRef, other []string
+					for _, ti := range v.ents[troot] {
+						if ti == cur {
+							continue
+						}
+						if c.Kind == "FI" && len(v.sets[troot+"/"+ti+"/"+c.Back]) == 0 {
+							noRef = append(noRef, ti)
+						} else {
+							other = append(other, ti)
+						}
+					}
+					if t, ok := pick(noRef); ok {
+						add(corruption{Op: "FS", Class: "fk-repoint-target-without-backrefs", Root: root, Id: i, Name: c.Field, Val: t})
+					}
+					if t, ok := pick(other); ok {
+						add(corruption{Op: "FS", Class: "fk-repoint", Root: root, Id: i, Name: c.Field, Val: t})
+					}
+				}
+				// the whole back-reference bucket of a target absent / emptied (every referrer misses its back-reference
+				// and there is no bucket to look into); an empty bucket on a target without referrers (neutral)
+				if c.Kind == "FI" {
+					var lonely []string
+					for _, ti := range v.ents[troot] {
+						if len(v.sets[troot+"/"+ti+"/"+c.Back]) > 0 {
+							add(corruption{Op: "EDB", Class: "fk-backref-bucket-deleted", Root: troot, Id: ti, Name: c.Back})
+							add(corruption{Op: "EEB", Class: "fk-backref-bucket-emptied", Root: troot, Id: ti, Name: c.Back})
+						} else {
+							lonely = append(lonely, ti)
+						}
+					}
+					if ti, ok := pick(lonely); ok {
+						add(corruption{Op: "EEB", Class: "fk-backref-bucket-empty-created", Root: troot, Id: ti, Name: c.Back})
+						add(corruption{Op: "EDB", Class: "fk-backref-bucket-empty-removed", Root: troot, Id: ti, Name: c.Back})
+					}
+				}
 				if i, ok := pick(v.ents[root]); ok {
 					add(corruption{Op: "FS", Class: "fk-dangling-ref", Root: root, Id: i, Name: c.Field, Val: ghost(troot)})
 					add(corruption{Op: "FN", Class: "nil-field", Root: root, Id: i, Name: c.Field})
@@ -370,6 +493,11 @@ func candidates(w *wiring, facts []string, r *rng, universe []string) []corrupti
 			for _, i := range v.ents[root] {
 				for _, x := range v.sets[root+"/"+i+"/"+l.Local] {
 					add(corruption{Op: "ED", Class: "link-one-sided", Root: oroot, Id: x, Name: l.OtherField, Val: i})
+				}
+				// the whole link bucket on this side absent / emptied: every partner keeps a one-sided link
+				if len(v.sets[root+"/"+i+"/"+l.Local]) > 0 {
+					add(corruption{Op: "EDB", Class: "link-bucket-deleted", Root: root, Id: i, Name: l.Local})
+					add(corruption{Op: "EEB", Class: "link-bucket-emptied", Root: root, Id: i, Name: l.Local})
 				}
 				var unlinked []string
 				have := map[string]bool{}
@@ -584,6 +712,24 @@ func runC09Case(w *wiring, txs []hTx, choose func(facts []string) []corruption, 
 	})
 	if err != nil {
 		return "", "", nil, err
+	}
+	// XDB removed the index bucket of a symbol altogether.  Index buckets are created by InitializeIndexes, which an
+	// application runs on every start before it touches a store (setIndex.getIndexBucket: "bucket ... for index not
+	// created"); the supported state is therefore "bucket deleted, process restarted": the start-up step runs again.
+	for _, x := range cs {
+		if x.Op == "XDB" {
+			err = h.db.Update(nil, func(ctx boltz.MutateContext) error {
+				holder := &errHolder{}
+				for _, def := range w.Stores {
+					h.stores[def.Name].InitializeIndexes(ctx.Tx(), holder)
+				}
+				return holder.err
+			})
+			if err != nil {
+				return "", "", nil, err
+			}
+			break
+		}
 	}
 	o.WriteString("PRE ok R ST")
 	for _, f := range h.facts() {
@@ -813,9 +959,24 @@ func runC09(o *opts) error {
 			default:
 				k = 5 + r.intn(4)
 			}
+			// half of the draws uniform over the candidates (classes with many instances dominate), half uniform
+			// over the CLASSES present first (whole-bucket classes have one or two instances per state)
+			byClass := map[string][]corruption{}
+			var classes []string
+			for _, x := range cands {
+				if _, ok := byClass[x.Class]; !ok {
+					classes = append(classes, x.Class)
+				}
+				byClass[x.Class] = append(byClass[x.Class], x)
+			}
 			var cs []corruption
 			for j := 0; j < k && len(cands) > 0; j++ {
-				cs = append(cs, cands[r.intn(len(cands))])
+				if r.chance(50) {
+					l := byClass[classes[r.intn(len(classes))]]
+					cs = append(cs, l[r.intn(len(l))])
+				} else {
+					cs = append(cs, cands[r.intn(len(cands))])
+				}
 			}
 			return cs
 		})
